@@ -85,8 +85,8 @@ def hist_records(rng_mod, names, rnd, quick):
     for seed in ([rnd.randrange(1, 2 ** 48)] if quick else [rnd.randrange(1, 2 ** 48), SPECIAL_SEEDS[0], rnd.randrange(1, 2 ** 200)]):
       plans.append((name, list(ns), seed))
   want = sorted({(name, n, seed) for name, ns, seed in plans for n in ns})
-  with mp.get_context('fork').Pool(processes=12, maxtasksperchild=40) as pool:
-    fresh = dict(pool.imap_unordered(_fresh_value, want, chunksize=8))
+  from pv import proc
+  fresh = dict(proc.imap_unordered(_fresh_value, want, procs=12, chunk=8))
   recs = []
   for name, ns, seed in plans:
     rec = R('%s-hist-%d' % (name, seed % 100003), 'hist', {'name': name, 'family': family(name), 'ns': ns, 'n': ns[0], 'n_mod_8': ns[0] % 8})
